@@ -17,6 +17,7 @@ type idxShape struct {
 	typ      string
 	dim      int
 	clean    bool // a valid polygon without degenerate loops: vertex queries are meaningful under every model
+	removed  bool // removed from the index by ShapeIndex.Remove (its id stays reserved)
 	edges    []s2.Edge
 	ref      s2.ReferencePoint
 	vertices map[s2.Point]bool
@@ -104,15 +105,24 @@ func reversed(p []s2.Point) []s2.Point {
 }
 
 type collection struct {
-	kind   string
-	shapes []*idxShape
-	index  *s2.ShapeIndex
+	kind    string
+	history []string // index lifecycle so far: Add / Build / Remove / Reset steps
+	shapes  []*idxShape
+	index   *s2.ShapeIndex
 }
 
 func (c *collection) add(sh s2.Shape, typ string, clean bool, desc interface{}) *idxShape {
 	s := newIdxShape(sh, typ, clean, desc)
 	c.shapes = append(c.shapes, s)
 	return s
+}
+func (c *collection) anyRemoved() bool {
+	for _, s := range c.shapes {
+		if s.removed {
+			return true
+		}
+	}
+	return false
 }
 func (c *collection) numEdges() int {
 	n := 0
@@ -322,9 +332,12 @@ func genCollection(rng *vkit.Rng, kind int) *collection {
 func (c *collection) replay(extra map[string]interface{}) map[string]interface{} {
 	sh := []interface{}{}
 	for _, s := range c.shapes {
-		sh = append(sh, map[string]interface{}{"type": s.typ, "edges": len(s.edges), "desc": s.desc})
+		sh = append(sh, map[string]interface{}{"type": s.typ, "edges": len(s.edges), "desc": s.desc, "removed": s.removed})
 	}
 	out := map[string]interface{}{"collection": c.kind, "shapes": sh}
+	if len(c.history) > 0 {
+		out["history"] = c.history
+	}
 	for k, v := range extra {
 		out[k] = v
 	}
@@ -355,6 +368,10 @@ func checkDump(c *vkit.Collector, rng *vkit.Rng, col *collection, cells []s2.Ver
 		present := map[int32]*s2.VerifClipped{}
 		for k := range cell.Shapes {
 			cl := &cell.Shapes[k]
+			if cl.ShapeID >= 0 && int(cl.ShapeID) < len(col.shapes) && col.shapes[cl.ShapeID].removed {
+				c.Violate("ShapeIndex.cell", "index cell lists a shape that was removed from the index", rp(map[string]interface{}{"shapeID": cl.ShapeID}))
+				continue
+			}
 			if cl.ShapeID < 0 || int(cl.ShapeID) >= len(col.shapes) || (k > 0 && cell.Shapes[k-1].ShapeID >= cl.ShapeID) {
 				c.Violate("ShapeIndex.cell", "clipped shape ids out of range or not increasing", rp(map[string]interface{}{"shapeID": cl.ShapeID}))
 				continue
@@ -400,6 +417,9 @@ func checkDump(c *vkit.Collector, rng *vkit.Rng, col *collection, cells []s2.Ver
 			byShape[cell.Shapes[k].ShapeID] = &cell.Shapes[k]
 		}
 		for sid, sh := range col.shapes {
+			if sh.removed {
+				continue
+			}
 			cl := byShape[int32(sid)]
 			listed := map[int]bool{}
 			cc := false
@@ -488,6 +508,9 @@ func checkContainsQueries(c *vkit.Collector, rng *vkit.Rng, col *collection, cel
 			anyWant, skipAny := false, false
 			wantSet := map[int]bool{}
 			for sid, sh := range col.shapes {
+				if sh.removed {
+					continue
+				}
 				if !sh.clean && sh.vertices[p] {
 					skipAny = true // vertex of a degenerate polygon: containment at that vertex is not defined by parity
 					continue
@@ -594,6 +617,9 @@ func checkCrossingQueries(c *vkit.Collector, rng *vkit.Rng, col *collection, cel
 			}
 			wantMap := map[int][]int{}
 			for sid, sh := range col.shapes {
+				if sh.removed {
+					continue
+				}
 				want := bruteCrossings(sh, a, b, all)
 				if len(want) > 0 {
 					wantMap[sid] = want
@@ -981,6 +1007,9 @@ func correspondIndexOk(c *vkit.Collector, col *collection, cells []s2.VerifCell)
 	ne := make([]int, len(col.shapes))
 	for i, sh := range col.shapes {
 		ne[i] = len(sh.edges)
+		if sh.removed {
+			ne[i] = 0
+		}
 	}
 	c.Eval("T:index_okb:"+col.kind+fmt.Sprint(len(cells), ids), len(cells) > 0)
 	c.Check(fmt.Sprintf("index_okb %s (%d cells)", col.kind, len(cells)), fmt.Sprintf("(index_okb %s %s)%%Z", zlistPlain(ne), coqIndex(cells)))
@@ -996,7 +1025,7 @@ func zlistPlain(xs []int) string {
 
 func correspondIndex(c *vkit.Collector, rng *vkit.Rng, col *collection, cells []s2.VerifCell, n int) {
 	correspondIndexOk(c, col, cells)
-	if len(cells) > 24 || col.numEdges() > 48 || tBudget <= 0 {
+	if len(cells) > 24 || col.numEdges() > 48 || tBudget <= 0 || col.anyRemoved() {
 		return
 	}
 	tBudget--
@@ -1179,6 +1208,10 @@ func runIndex(c *vkit.Collector, rng *vkit.Rng, budget int) {
 		}
 		runOneCollection(c, rng, it, kind, &maxEdges, &maxCells)
 	}
+	okBudget = 4 * budget // Coq also decides index_okb on dumps taken after updates
+	for it := 0; it < 6*budget; it++ {
+		runLifecycle(c, rng, it, &maxEdges, &maxCells)
+	}
 	checkRegionsSafely(c, rng, budget)
 	c.Extra["index_max_edges"] = maxEdges
 	c.Extra["index_max_cells"] = maxCells
@@ -1200,8 +1233,6 @@ func checkRegionsSafely(c *vkit.Collector, rng *vkit.Rng, budget int) {
 }
 
 func runOneCollection(c *vkit.Collector, rng *vkit.Rng, it, kind int, maxEdgesP, maxCellsP *int) {
-	maxEdges, maxCells := *maxEdgesP, *maxCellsP
-	defer func() { *maxEdgesP, *maxCellsP = maxEdges, maxCells }()
 	var col *collection
 	safely(c, "building the collection", func() interface{} { return map[string]interface{}{"kind": kind, "iteration": it} }, func() { col = genCollection(rng, kind) })
 	if col == nil {
@@ -1211,17 +1242,23 @@ func runOneCollection(c *vkit.Collector, rng *vkit.Rng, it, kind int, maxEdgesP,
 		c.Violate("Shape.Edge", n, col.replay(map[string]interface{}{}))
 	}
 	panicNote = nil
+	validateAndQuery(c, rng, col, it, maxEdgesP, maxCellsP)
+}
+
+// validateAndQuery dumps the index as it is now (applying pending updates), validates the dump
+// (structure, completeness, containsCenter) and compares every query with brute force.
+func validateAndQuery(c *vkit.Collector, rng *vkit.Rng, col *collection, it int, maxEdgesP, maxCellsP *int) {
 	safely(c, "index build and queries", func() interface{} { return col.replay(map[string]interface{}{}) }, func() {
 		cells := col.index.VerifCells()
 		c.Class("index:" + col.kind)
 		c.Class(fmt.Sprintf("index: %d shapes", len(col.shapes)))
-		if col.numEdges() > maxEdges {
-			maxEdges = col.numEdges()
+		if col.numEdges() > *maxEdgesP {
+			*maxEdgesP = col.numEdges()
 		}
-		if len(cells) > maxCells {
-			maxCells = len(cells)
+		if len(cells) > *maxCellsP {
+			*maxCellsP = len(cells)
 		}
-		c.Eval(fmt.Sprintf("index:%d:%d:%d", it, col.numEdges(), len(cells)), col.numEdges() > 0)
+		c.Eval(fmt.Sprintf("index:%d:%d:%d:%d", it, col.numEdges(), len(cells), len(col.history)), col.numEdges() > 0)
 		if it < 3 {
 			c.Sample(col.replay(map[string]interface{}{"edges": col.numEdges(), "cells": len(cells)}))
 		}
@@ -1233,5 +1270,109 @@ func runOneCollection(c *vkit.Collector, rng *vkit.Rng, it, kind int, maxEdgesP,
 		checkContainsQueries(c, rng, col, cells, nq)
 		checkCrossingQueries(c, rng, col, cells, nq/2+1)
 		correspondIndex(c, rng, col, cells, 6)
+	})
+}
+
+// ---- index lifecycles: Add, query, Add more, query, Remove, query, Reset, Add, query ----
+
+// faceCentre returns a point near the centre of a cube face.
+func faceCentre(rng *vkit.Rng, face int) s2.Point {
+	ctr := s2.CellFromCellID(s2.CellIDFromFace(face)).Center()
+	return s2.Point{Vector: ctr.Add(randPoint(rng).Mul(0.3 * rng.Float())).Normalize()}
+}
+
+func (col *collection) addToIndex(rng *vkit.Rng, center s2.Point, radius s1.Angle, maxN int, what string) {
+	before := len(col.shapes)
+	addRandomShape(col, rng, center, radius, maxN)
+	for _, sh := range col.shapes[before:] {
+		col.index.Add(sh.shape)
+	}
+	col.history = append(col.history, fmt.Sprintf("Add %s (%s, %d edges)", what, col.shapes[len(col.shapes)-1].typ, len(col.shapes[len(col.shapes)-1].edges)))
+}
+
+func runLifecycle(c *vkit.Collector, rng *vkit.Rng, it int, maxEdgesP, maxCellsP *int) {
+	col := &collection{kind: "lifecycle", index: s2.NewShapeIndex()}
+	stage := func(name string) {
+		col.history = append(col.history, "query ("+name+")")
+		c.Class("index-lifecycle stage: " + name)
+		for _, n := range panicNote {
+			c.Violate("Shape.Edge", n, col.replay(map[string]interface{}{}))
+		}
+		panicNote = nil
+		before := len(c.Violations)
+		validateAndQuery(c, rng, col, 1000+it, maxEdgesP, maxCellsP)
+		// Known defect of the re-indexing update (KNOWN_FINDINGS: ShapeIndex.Remove.reindexBound):
+		// applyUpdatesInternal re-adds ids below len(s.shapes), the number of LIVE shapes, so after
+		// removing a shape that is not the last one every live shape with id >= live count is
+		// dropped. In exactly those histories the stage's violations are reported under that one
+		// specific kind (one per stage, so that the violation list keeps room for other kinds).
+		live, maxLive := 0, -1
+		for i, sh := range col.shapes {
+			if !sh.removed {
+				live++
+				maxLive = i
+			}
+		}
+		if maxLive >= live && len(c.Violations) > before {
+			first := c.Violations[before]
+			first.Desc = fmt.Sprintf("after Remove of a shape that is not the last, live shape ids reach %d but only ids < %d (the number of live shapes) are re-indexed; first symptom [%s]: %s", maxLive, live, first.Kind, first.Desc)
+			first.Kind = "ShapeIndex.Remove.reindexBound"
+			c.Violations = append(c.Violations[:before], first)
+			c.Class("index-lifecycle stage hit the known defect ShapeIndex.Remove.reindexBound")
+		}
+	}
+	safely(c, "index lifecycle", func() interface{} { return col.replay(map[string]interface{}{}) }, func() {
+		// first batch on a middle face, so that later additions sort both before and after its cells
+		f0 := 1 + rng.Intn(4)
+		radius := pickRadius(rng)
+		if radius < 0.01 {
+			radius = 0.05
+		}
+		for i, n := 0, 1+rng.Intn(3); i < n; i++ {
+			col.addToIndex(rng, faceCentre(rng, f0), radius, 200, fmt.Sprintf("on face %d", f0))
+		}
+		if rng.Intn(4) != 0 {
+			stage("first build")
+		} // else: the first build happens with the second batch pending as well
+		// second batch: faces 0 and 5 (cell ids below and above everything so far), and one overlapping
+		col.addToIndex(rng, faceCentre(rng, 0), radius, 200, "on face 0")
+		col.addToIndex(rng, faceCentre(rng, 5), radius, 200, "on face 5")
+		if rng.Bool() {
+			col.addToIndex(rng, faceCentre(rng, f0), radius, 64, fmt.Sprintf("overlapping on face %d", f0))
+		}
+		stage("after adding to a built index")
+		// Remove one or two shapes: in even lifecycles the highest live ids (the ids stay contiguous),
+		// in odd ones any shape
+		for k := 0; k < 1+rng.Intn(2); k++ {
+			live := []int{}
+			for i, sh := range col.shapes {
+				if !sh.removed {
+					live = append(live, i)
+				}
+			}
+			if len(live) <= 1 {
+				break
+			}
+			i := live[len(live)-1]
+			if it%2 == 1 {
+				i = live[rng.Intn(len(live))]
+			}
+			col.index.Remove(col.shapes[i].shape)
+			col.shapes[i].removed = true
+			col.history = append(col.history, fmt.Sprintf("Remove shape %d", i))
+		}
+		stage("after Remove")
+		if rng.Bool() {
+			col.addToIndex(rng, faceCentre(rng, rng.Intn(6)), radius, 100, "after Remove")
+			stage("after Remove and Add")
+		}
+		// Reset and start again with the same index object
+		col.index.Reset()
+		col.shapes = nil
+		col.history = append(col.history, "Reset")
+		col.addToIndex(rng, faceCentre(rng, rng.Intn(6)), radius, 100, "after Reset")
+		stage("after Reset")
+		col.addToIndex(rng, faceCentre(rng, rng.Intn(6)), radius, 100, "to the rebuilt index")
+		stage("after Reset, build, Add")
 	})
 }
